@@ -1,5 +1,5 @@
 /- C14 helper lemmas: the block walker equals the memory-map specification on every ascending
-   layout of non-empty blocks (except the zero-length range at an inner boundary). -/
+   layout of non-empty blocks, for every offset and length. -/
 import YaraModel.Lemmas.HashMathWalk
 namespace YaraModel.HM
 open Spec
@@ -200,8 +200,7 @@ theorem after_ok (bs : List Block) (hl : Layout bs) (off : Nat) (hb : ∀ b ∈ 
       rfl
 
 /-- Lemma A: no block consumed yet. -/
-theorem before_ok (bs : List Block) (hl : Layout bs) (off len : Nat)
-    (hz : len = 0 → ∀ b ∈ bs, off ≠ b.base + b.size) :
+theorem before_ok (bs : List Block) (hl : Layout bs) (off len : Nat) :
     (walkLoop bs off len false).map List.flatten =
       if (memAt (toMem bs) off).isNone then none
       else readFrom (toMem bs) off (min (off + len) (memEnd (toMem bs)) - off) := by
@@ -230,34 +229,24 @@ theorem before_ok (bs : List Block) (hl : Layout bs) (off len : Nat)
       have hmem : memAt (toMem (b :: rest)) off = memAt (toMem rest) off := by
         simp only [toMem, List.map_cons, memAt]
         rw [if_neg (by unfold Block.size at hin; omega)]
-      by_cases hb : b.base + b.size ≥ off + len
-      · rw [if_pos hb]
-        -- off lies before b (the zero-length range at the end of b is excluded): unmapped
-        have hlt : off < b.base := by
-          by_cases h0 : len = 0
-          · have := hz h0 b (by simp); omega
+      rw [ih hl.tail, hmem]
+      cases hn : (memAt (toMem rest) off).isNone with
+      | true => rfl
+      | false =>
+        simp only [Bool.false_eq_true, if_false]
+        have hlt := memAt_lt_memEnd _ _ hn
+        have hge : b.base + b.size ≤ off := by
+          by_cases hlow : off < b.base
+          · have := memAt_below (b :: rest) hl off (by intro c hc; simp at hc; subst hc; exact hlow)
+            rw [hmem] at this; rw [this] at hn; simp at hn
           · omega
-        rw [memAt_below (b :: rest) hl off (by intro c hc; simp at hc; subst hc; exact hlt)]
-        rfl
-      · rw [if_neg hb, ih hl.tail (fun h0 c hc => hz h0 c (by simp [hc])), hmem]
-        cases hn : (memAt (toMem rest) off).isNone with
-        | true => rfl
-        | false =>
-          simp only [Bool.false_eq_true, if_false]
-          have hlt := memAt_lt_memEnd _ _ hn
-          have hge : b.base + b.size ≤ off := by
-            by_cases hlow : off < b.base
-            · have := memAt_below (b :: rest) hl off (by intro c hc; simp at hc; subst hc; exact hlow)
-              rw [hmem] at this; rw [this] at hn; simp at hn
-            · omega
-          have hE : memEnd (toMem (b :: rest)) = memEnd (toMem rest) := by rw [memEnd_cons]; omega
-          rw [hE]
-          simp only [toMem, List.map_cons]
-          rw [readFrom_skip b.base b.data _ _ _ (by unfold Block.size at hge; omega)]
+        have hE : memEnd (toMem (b :: rest)) = memEnd (toMem rest) := by rw [memEnd_cons]; omega
+        rw [hE]
+        simp only [toMem, List.map_cons]
+        rw [readFrom_skip b.base b.data _ _ _ (by unfold Block.size at hge; omega)]
 
 /-- The walker is the memory-map specification. -/
-theorem rangeWalk_eq_addressedMem_lemma (blocks : List Block) (hl : Layout blocks) (off len : Int)
-    (hz : len = 0 → ∀ b ∈ blocks, off ≠ ((b.base + b.size : Nat) : Int)) :
+theorem rangeWalk_eq_addressedMem_lemma (blocks : List Block) (hl : Layout blocks) (off len : Int) :
     rangeWalk blocks off len = addressedMem (toMem blocks) off len := by
   unfold rangeWalk chunksWalk addressedMem
   cases blocks with
@@ -284,9 +273,6 @@ theorem rangeWalk_eq_addressedMem_lemma (blocks : List Block) (hl : Layout block
           omega
         rw [this]
         simp only [if_true]
-        rw [before_ok (b0 :: rest) hl off.toNat len.toNat (by
-          intro h0 c hc
-          have := hz (by omega) c hc
-          omega)]
+        rw [before_ok (b0 :: rest) hl off.toNat len.toNat]
 
 end YaraModel.HM
